@@ -115,6 +115,7 @@ class Emitted:
     substitutions: list[dict]
     lemmas: list[dict]
     template: str
+    imports: list = field(default_factory=list)
 
 
 _SUBST_RE = re.compile(r'^"((?:[^"\\]|\\.)*)"\s*=>\s*"((?:[^"\\]|\\.)*)"\s*$')
@@ -195,6 +196,14 @@ def parse_template(path: str):
                 raise LostAnchor(f'template line {tl}: //@item <file> <kind> <name>')
             opts = parts[4:]
             segs.append(('item', parts[1], parts[2], parts[3], tl, opts))
+            i += 1
+            continue
+        if s.startswith('//@import'):
+            if cur_text:
+                segs.append(('text', cur_text))
+                cur_text = []
+            parts = s.split(None, 2)
+            segs.append(('import', parts[1], parts[2].strip(), tl))
             i += 1
             continue
         if s.startswith('//@fn'):
@@ -591,14 +600,19 @@ def rewrite_body(rf: RepoFile, it: Item, d: FnDirective, rules: dict, info: FnIn
         rules['hints'] = rules.get('hints', 0) + 1
 
     # substitutions (body or anywhere in item text after signature)
+    subst_ranges: list[tuple[int, int]] = []
     for a, b, tl, many in d.subst:
         occ = [m.start() for m in re.finditer(re.escape(a), text) if m.start() >= body_lo]
         if (not many and len(occ) != 1) or (many and not occ):
             raise LostAnchor(f'{rf.rel}: {d.selector}: R6 substitution {a!r} matched {len(occ)} times')
         for p in occ:
             pad = '\n' * (a.count('\n') - b.count('\n')) if a.count('\n') > b.count('\n') else ''
+            subst_ranges.append((p, p + len(a)))
             edits.append(Edit(p, p + len(a), b + pad, None))
         rules['R6'] = rules.get('R6', 0) + len(occ)
+    # an R6 substitution wins over automatic rewrites (R2/R3/R5) that fall inside the substituted text
+    edits = [e for e in edits if (e.start, e.end) in subst_ranges or
+             not any(lo <= e.start and e.end <= hi for lo, hi in subst_ranges)]
     return edits
 
 
@@ -733,6 +747,8 @@ def emit(unit_dir: str, repo_root: str) -> Emitted:
     substs: list[dict] = []
     lemmas: list[dict] = []
     gcount = {a: 0 for a, _, _ in gsubst}
+    imported_units: dict = {}
+    imports: list[dict] = []
 
     def gs(text):
         for a, b, tl in gsubst:
@@ -762,6 +778,36 @@ def emit(unit_dir: str, repo_root: str) -> Emitted:
                 if text.strip() == '' and org[0] == 'repo':
                     continue
                 out.append(OutLine(gs(text), org))
+        elif seg[0] == 'import':
+            _, other, selector, tl = seg
+            opath = os.path.join(os.path.dirname(unit_dir.rstrip('/')), other, 'unit.rs')
+            if other not in imported_units:
+                osegs, _og = parse_template(opath)
+                imported_units[other] = [x[1] for x in osegs if x[0] == 'fn']
+            cands = [x for x in imported_units[other] if x.selector == selector]
+            if len(cands) != 1:
+                raise LostAnchor(f'template line {tl}: import {other} {selector}: {len(cands)} directives found')
+            d = cands[0]
+            rf = rfile(d.file)
+            it = rf.find_fn(d.selector)
+            name_out = d.rename or it.name
+            sig, _ = rewrite_signature(rf, it, d, {}, name_out)
+            out.append(OutLine('#[verifier::external_body]', ('tmpl', tl), None))
+            for k, sl in enumerate(gs(sig).split('\n')):
+                out.append(OutLine(sl, ('repo', d.file, it.line + k), None))
+            for sect in ('requires', 'ensures'):
+                cl = getattr(d, sect)
+                if cl:
+                    out.append(OutLine('    ' + sect, ('tmpl', tl), None))
+                    for c in cl:
+                        for ctext in c.text.split('\n'):
+                            out.append(OutLine('       ' + ctext, ('tmpl', tl, 'import-' + sect, c.label), None))
+                        if not c.text.rstrip().endswith(','):
+                            out[-1].text += ','
+            out.append(OutLine('{ unimplemented!() }', ('tmpl', tl), None))
+            imports.append({'unit': other, 'selector': selector, 'file': d.file, 'line': it.line,
+                            'clauses': [(c.label or 'ensures@T%d' % c.tline) for c in d.ensures],
+                            'external_body_there': d.external_body})
         else:
             d: FnDirective = seg[1]
             rf = rfile(d.file)
@@ -812,7 +858,7 @@ def emit(unit_dir: str, repo_root: str) -> Emitted:
         if gcount[a] == 0:
             raise LostAnchor(f'global substitution {a!r} never matched')
     return Emitted(lines=out, fns=fns, items=items, rules=rules, substitutions=substs, lemmas=lemmas,
-                   template=tpath)
+                   template=tpath, imports=imports)
 
 
 def render(em: Emitted) -> str:
